@@ -310,6 +310,10 @@ def cbmc_cmd(task, gb, props=None, trace=False, solver='sat'):
         cmd += ['--property', p]
     if trace:
         cmd += ['--trace']
+    if solver == 'kissat':
+        cmd += ['--external-sat-solver', 'kissat']
+    elif solver == 'cadical':
+        cmd += ['--sat-solver', 'cadical']
     if solver in ('cvc5', 'z3', 'z3new'):
         cmd += ['--cvc5', '--external-smt2-solver', SMTWRAP]
     return cmd
